@@ -795,6 +795,15 @@ func runC05R4(c *Ctx, fns map[*ssa.Function]bool) {
 				}
 			}
 			boundOK, boundDesc := scanBound(bin.Y, start)
+			// the slot visited in each iteration must be a canonical full-coverage index of the loop variable
+			if stride1 && boundOK && !strings.Contains(boundDesc, "sampling") {
+				idxOK, idxDesc := scanIndexCanonical(fn, ifi, phi, bin.Y, start)
+				if !idxOK {
+					c.Fail("C05.R4", key, nearestPos(ifi), "the health scan does not visit slot (loop variable + start) mod size (or the loop variable itself): "+idxDesc+" — some hosts may never be looked at, so no host is returned although a healthy one exists")
+					continue
+				}
+				boundDesc += "; " + idxDesc
+			}
 			if stride1 && boundOK {
 				c.Pass("C05.R4", key, nearestPos(ifi), "stride-1 loop bounded by "+boundDesc)
 			} else if !stride1 {
@@ -921,4 +930,57 @@ func (st *hnState) ownHostSet(v ssa.Value, depth int) (string, bool) {
 		}
 	}
 	return "", false
+}
+
+// scanIndexCanonical: inside the loop headed by ifi, every HostSet.Get(x) has x of one of the forms
+//   i                      (i from 0 to size)
+//   (i + s) % size, (s + i) % size
+//   i % size               (i from s to s+size)
+//   atomic.AddUint32(&ctr,1) % size   (a shared round-robin cursor advanced once per iteration)
+func scanIndexCanonical(fn *ssa.Function, ifi *ssa.If, phi *ssa.Phi, bound ssa.Value, start ssa.Value) (bool, string) {
+	body := reachableFrom(ifi.Block().Succs[0])
+	var gets []*ssa.Call
+	for bb := range body {
+		if !reachableFrom(bb)[ifi.Block()] {
+			continue
+		}
+		for _, in := range bb.Instrs {
+			if call, ok := in.(*ssa.Call); ok && call.Common().IsInvoke() && call.Common().Method.Name() == "Get" && strings.HasSuffix(call.Common().Value.Type().String(), "types.HostSet") {
+				gets = append(gets, call)
+			}
+		}
+	}
+	if len(gets) == 0 {
+		return true, "no indexed access in the loop (delegates to a helper)"
+	}
+	isSize := func(v ssa.Value) bool {
+		v = stripConvNum(v)
+		if call, ok := v.(*ssa.Call); ok && methodName(call.Common()) == "Size" {
+			return true
+		}
+		return false
+	}
+	for _, g := range gets {
+		x := stripConvNum(g.Common().Args[0])
+		ok := false
+		switch {
+		case x == ssa.Value(phi):
+			ok = true
+		default:
+			if rem, isB := x.(*ssa.BinOp); isB && rem.Op == token.REM && isSize(rem.Y) {
+				num := stripConvNum(rem.X)
+				if num == ssa.Value(phi) {
+					ok = true
+				} else if add, isA := num.(*ssa.BinOp); isA && add.Op == token.ADD && (stripConvNum(add.X) == ssa.Value(phi) || stripConvNum(add.Y) == ssa.Value(phi)) {
+					ok = true
+				} else if call, isC := num.(*ssa.Call); isC && isAtomicCall(call.Common(), "Add") {
+					ok = true
+				}
+			}
+		}
+		if !ok {
+			return false, "index expression " + x.String() + " (" + x.Name() + ")"
+		}
+	}
+	return true, fmt.Sprintf("%d indexed access(es) of canonical form", len(gets))
 }
